@@ -53,12 +53,13 @@ def cases(seed, tier):
     for i in range(n):
         r = rng.random()
         if r < 0.45:
-            d = gen.scenario(rng, sched="scripted", noise_p=0.3, horizon=18, long_p=0.15)
+            d = gen.scenario(rng, sched="scripted", noise_p=0.3, horizon=18, long_p=0.15, bkinds=("ideal", "l2c", "l2s", "user"))
         elif r < 0.7:
-            d = gen.scenario(rng, sched="uncontrolled", noise_p=0.3, horizon=18)
+            d = gen.scenario(rng, sched="uncontrolled", noise_p=0.3, horizon=18, bkinds=("ideal", "l2c", "l2s", "user"))
         else:
             d = gen.scenario(rng, sched="sorted", kinds=("EVSE", "FR"), noise_p=0.3, horizon=18, seed=rng.randrange(1 << 20))
         d["hist"] = rng.random() < 0.5
+        d["keyboard"] = rng.random() < 0.15  # the interruption is a KeyboardInterrupt (not an Exception subclass)
         d["tz"] = rng.choice(TZS) if rng.random() < 0.35 else None
         if d["scheduler"]["kind"] != "sorted" and rng.random() < 0.2:
             # more cars than spaces on a network that assigns spaces at random
@@ -81,6 +82,10 @@ def cases(seed, tier):
 
 class Boom(Exception):
     pass
+
+
+class BoomKI(KeyboardInterrupt):
+    """The user interrupts a long run (Ctrl-C) while the scheduling algorithm is working, and calls run() again later."""
 
 
 _FLAKY = None
@@ -109,13 +114,14 @@ def flaky_cls():
             def schedule(self, active_sessions):
                 t = self.interface.current_time
                 self.invoked.append(t)
+                exc_ = BoomKI if getattr(self, "keyboard", False) else Boom
                 if t in self.fail_at and self.mode == "before":
                     self.fail_at.discard(t)
-                    raise Boom(t)
+                    raise exc_(t)
                 out = self.inner.schedule(active_sessions)
                 if t in self.fail_at:
                     self.fail_at.discard(t)
-                    raise Boom(t)
+                    raise exc_(t)
                 return out
 
         _FLAKY = Flaky
@@ -228,6 +234,7 @@ def key_sorted(seq):
 def make_sim(d, fail_at=(), mode="before"):
     inner = build_scheduler(d)
     fl = flaky_cls()(inner, fail_at, mode)
+    fl.keyboard = bool(d.get("keyboard"))
     kw = {}
     if d.get("stochastic"):
         # spaces assigned at run time with the global `random` stream: reference and interrupted run start from the same seed,
@@ -255,7 +262,7 @@ def run_to_end(sim, limit):
         try:
             sim.run()
             return n
-        except Boom:
+        except (Boom, BoomKI):
             n += 1
             if n > limit:
                 raise
@@ -317,7 +324,7 @@ def judge_point(d, R, T, pt, leg, mode, obs, wit):
         sim.run()
         obs.ev("fault_not_reached")  # cannot happen: pt are invocation periods of the reference
         return
-    except Boom:
+    except (Boom, BoomKI):
         pass
     except Exception as e:
         obs.evals += 1
